@@ -123,21 +123,30 @@ def run(module, cfg=None, *, workers=4, timeout=600, env=None, simulate=None, de
         e.update({k: str(v) for k, v in env.items()})
     t0 = time.time()
     try:
-        p = subprocess.run(cmd, cwd=cwd or str(module.parent), env=e, capture_output=True,
-                           text=True, timeout=timeout)
-    except subprocess.TimeoutExpired as ex:
-        subprocess.run(["pkill", "-f", meta], check=False)
-        shutil.rmtree(meta, ignore_errors=True)
-        raise TLCError(f"TLC timed out after {timeout}s on {module.name}/{cfg.name}") from ex
+        for attempt in range(3):
+            os.makedirs(meta, exist_ok=True)
+            try:
+                p = subprocess.run(cmd, cwd=cwd or str(module.parent), env=e, capture_output=True,
+                                   text=True, timeout=timeout)
+            except subprocess.TimeoutExpired as ex:
+                subprocess.run(["pkill", "-f", meta], check=False)
+                raise TLCError(f"TLC timed out after {timeout}s on {module.name}/{cfg.name}") from ex
+            out = p.stdout + p.stderr
+            # rc 0 fine; 10..13 = violation classes (assumption 10, deadlock 11, safety 12, liveness 13); anything else is
+            # a failure of the tool itself. A spec error is deterministic, resource exhaustion on a busy machine (JVM could
+            # not start / was killed) is not: retry those twice before giving up.
+            if p.returncode in (0, 10, 11, 12, 13):
+                break
+            deterministic = ("Parsing or semantic analysis failed" in out or "was evaluating the nested" in out
+                             or "Attempted to" in out or "is not completely specified" in out)
+            if deterministic or attempt == 2:
+                raise TLCError(f"TLC failed rc={p.returncode} on {module.name}/{cfg.name} (attempt {attempt + 1}):\n{out[-4000:]}")
+            shutil.rmtree(meta, ignore_errors=True)
+            time.sleep(5 * (attempt + 1))
     finally:
         if not keep_meta:
             shutil.rmtree(meta, ignore_errors=True)
-    out = p.stdout + p.stderr
-    res = TLCResult(p.returncode, out, time.time() - t0)
-    # rc 0 fine; 10..13 = violation classes (assumption 10, deadlock 11, safety 12, liveness 13)
-    if p.returncode not in (0, 10, 11, 12, 13):
-        raise TLCError(f"TLC failed rc={p.returncode} on {module.name}/{cfg.name}:\n{out[-4000:]}")
-    return res
+    return TLCResult(p.returncode, out, time.time() - t0)
 
 
 def require_all_actions_taken(res, allow=()):
